@@ -171,15 +171,23 @@ class Report:
 class Ctx:
     """facts + E1 results of one configuration"""
 
-    def __init__(self, cfg, need_e1=True):
+    def __init__(self, cfg, need_e1=True, prop=None):
         self.cfg = cfg
         fp, ep = pipeline.ensure(cfg, need_e1)
         self.facts = Facts(fp)
         if self.facts.errors:
             raise AnalysisIncomplete(f"extractor reported: {self.facts.errors}")
         self.e1 = pipeline.load_json(ep) if ep else None
+        self.skipped_roots = []
         if self.e1 is not None:
             inc = [r for r in self.e1['roots'] if r['incomplete']]
+            if inc and prop not in (None, 'C02', 'C03'):
+                # a root E1 could not analyse leaves undecided only the properties that have obligations or contracts
+                # under that root (spec/root_props.json, counted on the reference tree; an unknown root counts for all)
+                ref = root_props()
+                rel = [r for r in inc if prop in ref.get(r['root'], [prop])]
+                self.skipped_roots = sorted({r['root'] for r in inc} - {r['root'] for r in rel})
+                inc = rel
             if inc:
                 raise AnalysisIncomplete(f"[{cfg}] E1 could not analyse {len(inc)} root(s): " +
                                          '; '.join(f"{r['root']}: {r['incomplete'][:160]}" for r in inc[:3]))
@@ -191,6 +199,11 @@ class Ctx:
     def floor(self, what, have, need):
         if have < need:
             raise AnalysisIncomplete(f"[{self.cfg}] floor not met for {what}: {have} < {need} (counted on the reference tree)")
+
+
+def root_props():
+    p = os.path.join(VERIF, 'spec', 'root_props.json')
+    return json.load(open(p)) if os.path.exists(p) else {}
 
 
 def floors():
@@ -255,6 +268,9 @@ def std_assumptions(rep, ctx):
         'unmodelled external callees are total (listed): ' + (', '.join(sorted(ctx.unmodelled)) or 'none'),
         'StackStr<32> capacity is decided by the C15 layout-width rule, not by E1',
     ]
+    if ctx.skipped_roots:
+        rep.assumptions.append('roots E1 could not analyse, without obligations or contracts of this property (undecided for C02/C03 only): '
+                               + ', '.join(ctx.skipped_roots))
 
 
 # ----------------------------------------------------------------------------------------------------------------
@@ -339,7 +355,7 @@ def prop_contracts(pid, explanation):
     def run(rep: Report, tier):
         fl = floors().get(pid, {})
         for cfg in tier_cfgs(tier):
-            ctx = Ctx(cfg)
+            ctx = Ctx(cfg, prop=pid)
             rep.configs.append(cfg)
             n = contract_records(rep, ctx, pid)
             if cfg == 'full':
@@ -363,7 +379,7 @@ def extra_C11(rep, ctx):
 def prop_tables(pid, fn, explanation):
     def run(rep: Report, tier):
         for cfg in tier_cfgs(tier):
-            ctx = Ctx(cfg)
+            ctx = Ctx(cfg, prop=pid)
             rep.configs.append(cfg)
             fn(rep, ctx)
             n = contract_records(rep, ctx, pid)
